@@ -1,7 +1,139 @@
+import MythVerif.Model.Life
 import Driver.Util
-/-! `drv_join`: stub, to be filled in -/
+/-! `drv_join`: trace acceptor for the thread life cycle (C01 / C12 / C13).  One `Life` instance
+per thread tag, created by the program's `note … new <tag> det <0|1>` line.  At the end every
+instance must be terminal with record and stack released exactly once. -/
 namespace Driver.Join
-def run (_args : List String) : IO UInt32 := do
-  IO.eprintln "drv_join: not implemented"
-  return 2
+open MythVerif MythVerif.Life
+
+structure Inst where
+  tag : Nat
+  st : St
+  steps : Nat := 0
+
+structure Acc where
+  insts : List Inst := []
+  line : Nat := 0
+  accepted : Nat := 0
+  err : Option String := none
+
+def showT : TPc → String
+  | .created => "created" | .run => "run" | .fBegin => "fBegin" | .fRead w => s!"fRead({w})"
+  | .fSwitched w => s!"fSwitched({w})" | .fFreeing => "fFreeing" | .fDone => "fDone"
+def showR : RPc → String
+  | .idle => "idle" | .jBlock => "jBlock" | .jSw => "jSw" | .asleep => "asleep" | .jSpin => "jSpin"
+  | .jFree v => s!"jFree({v})" | .dLockW => "dLockW" | .dSpin => "dSpin" | .dFree => "dFree"
+  | .done v => s!"done({v})" | .ddone => "ddone" | .ddoneSet => "ddoneSet"
+
+def parseOptTag (s : String) : Option (Option Nat) :=
+  if s == "-" then some none else (Driver.parseTag s).map some
+
+/-- (target tag, labels to apply in order) -/
+def toLbls (acc : Acc) (e : Driver.Ev) : Option (Nat × List Lbl) :=
+  let ta := Driver.parseTag e.a
+  let tb := Driver.parseTag e.b
+  let inst (t : Nat) := acc.insts.find? (·.tag == t)
+  match e.pt with
+  | "FIN_BEGIN" => ta.map (fun t => (t, [.tFinish e.v.toNat]))
+  | "FIN_LOCKED" => match ta, parseOptTag e.b with
+      | some t, some w => some (t, [.tLockRead w])
+      | _, _ => none
+  | "FIN_STACK_FREE" => ta.map (fun t => (t, [.tStackFree]))
+  | "FIN_PUBLISH" => ta.map (fun t => (t, [.tPublish (e.v == 1)]))
+  | "JOIN_LOCKED" => match ta, tb with
+      | some t, some j => some (t, [.jLocked j (e.v == 1)])
+      | _, _ => none
+  | "JOIN_CB_SET" => match ta, tb with
+      | some t, some j =>
+          match inst t with
+          | some i => some (t, if i.st.pc j == .jBlock then [.jSwitch j, .jSet j] else [.jSet j])
+          | none => some (t, [.jSet j])
+      | _, _ => none
+  | "SPIN_JOIN_SPIN" => match ta, e.cur with
+      | some t, some j => some (t, [.jSpin j])
+      | _, _ => none
+  | "JOIN_REAP" => match ta, e.cur with
+      | some t, some j => some (t, [.jReap j e.v.toNat])
+      | _, _ => none
+  | "TRYJOIN_LOCKED" => match ta, e.cur with
+      | some t, some j => some (t, [.tjLocked j (e.v == 1)])
+      | _, _ => none
+  | "DETACH_FAST" => match ta, e.cur with
+      | some t, some j => some (t, [.dFast j (e.v == 1)])
+      | _, _ => none
+  | "DETACH_LOCKED" => match ta, e.cur with
+      | some t, some j => some (t, [.dLocked j (e.v == 1)])
+      | _, _ => none
+  | "DESC_FREE" => match tb with
+      | some t =>
+          match inst t with
+          | some i => if i.st.tpc == .fFreeing then some (t, [.tDescFree])
+                      else match e.cur with
+                        | some j => some (t, [.descFree j])
+                        | none => none
+          | none => some (t, [])
+      | none => some (0, [])        -- release of a record that never got a tag (e.g. at shutdown)
+  | _ => some (0, [])
+
+def applyAll (st : St) : List Lbl → Option St
+  | [] => some st
+  | l :: ls => match step st l with
+    | some st' => applyAll st' ls
+    | none => none
+
+def feed (acc : Acc) (line : String) : Acc :=
+  if acc.err.isSome then acc else
+  let acc := { acc with line := acc.line + 1 }
+  match Driver.words line with
+  | ["note", _, _, "new", t, "det", d] =>
+    match t.toNat?, d.toNat? with
+    | some t, some d => { acc with insts := { tag := t, st := init 0 (d == 1) } :: acc.insts.filter (·.tag != t) }
+    | _, _ => acc
+  | ["note", _, _, "start", t] =>
+    match t.toNat? with
+    | some t =>
+      match acc.insts.find? (·.tag == t) with
+      | some i =>
+        match step i.st .tStart with
+        | some st' => { acc with insts := acc.insts.map (fun p => if p.tag == t then { p with st := st', steps := p.steps + 1 } else p),
+                                 accepted := acc.accepted + 1 }
+        | none => { acc with err := some s!"MISMATCH line {acc.line}: start function of thread {t} entered again (tpc={showT i.st.tpc})" }
+      | none => acc
+    | none => acc
+  | _ =>
+  match Driver.parseEv line with
+  | none => acc
+  | some e =>
+    match toLbls acc e with
+    | none => { acc with err := some s!"MISMATCH line {acc.line}: cannot attribute `{line.trimAscii.toString}`" }
+    | some (_, []) => acc
+    | some (t, ls) =>
+      match acc.insts.find? (·.tag == t) with
+      | none => acc
+      | some i =>
+        match applyAll i.st ls with
+        | some st' => { acc with insts := acc.insts.map (fun p => if p.tag == t then { p with st := st', steps := p.steps + ls.length } else p),
+                                 accepted := acc.accepted + ls.length }
+        | none =>
+          let j := e.cur.getD 0
+          { acc with err := some s!"MISMATCH line {acc.line}: life model of thread {t} cannot do `{line.trimAscii.toString}`: tpc={showT i.st.tpc} fin={i.st.fin} det={i.st.det} jt={i.st.jt} lock={i.st.lock} tlock={i.st.tlock} claimed={i.st.claimed} pc[{j}]={showR (i.st.pc j)}" }
+
+def terminalErr (i : Inst) : Option String :=
+  if i.st.tpc != .fDone then some s!"thread {i.tag} did not finish (tpc={showT i.st.tpc})"
+  else if i.st.descFrees != 1 then some s!"record of thread {i.tag} released {i.st.descFrees} times (claimed={i.st.claimed})"
+  else if i.st.stackFrees != 1 then some s!"stack of thread {i.tag} released {i.st.stackFrees} times"
+  else if i.st.started != 1 then some s!"start function of thread {i.tag} entered {i.st.started} times"
+  else none
+
+def run (args : List String) : IO UInt32 := do
+  let stdin ← IO.getStdin
+  let acc ← Driver.forLines stdin ({} : Acc) fun a line => pure (feed a line)
+  match acc.err with
+  | some e => IO.println e; return 0
+  | none =>
+    if args.contains "noterminal" then IO.println s!"accepted {acc.accepted}"; return 0
+    match acc.insts.findSome? terminalErr with
+    | some e => IO.println s!"MISMATCH end: {e}"; return 0
+    | none => IO.println s!"accepted {acc.accepted}"; return 0
+
 end Driver.Join
